@@ -67,7 +67,8 @@ P_InquiryStd(b) ==
       Bl("t10_vendor_identification", Bs(b, 8, 8)), Bl("product_identification", Bs(b, 16, 16)),
       Bl("product_revision_level", Bs(b, 32, 4)),
       Nm("clocking", Fl(b, 56, 3, 2)), Nm("qas", Fl(b, 56, 1, 1)), Nm("ius", Fl(b, 56, 0, 1)) }
-Ok_InquiryStd(b) == Len(b) >= 58
+\* the 36 bytes every device returns are the minimum; fields beyond what is present read as zero
+Ok_InquiryStd(b) == Len(b) >= 36
 
 \* ---- VPD pages: header SPC-4 7.8.1: qualifier/type byte 0, PAGE CODE byte 1, PAGE LENGTH bytes 2-3 (n-3)
 VpdLen(b) == Min(Nn(b, 2, 2) + 4, Len(b))                    \* bytes of the page that are present
